@@ -266,8 +266,23 @@ def layered_case(draw, for_package=False, max_vars=5, max_opts=4):
         # a component's private variables are nobody else's layer
         names = sorted(variables)
         picked = draw(st.lists(st.sampled_from(names), min_size=1, max_size=min(3, len(names)), unique=True))
+        # preferably a name that one of the probe's OWN (component-level) variables refers to and that the probe
+        # inherits from a lower layer: exactly where a sibling's private value must not show up
+        inherited = sorted({r for defs in variables.values() if "c" in defs for r in references_in(defs["c"])
+                            if r in variables and "c" not in variables[r]})
+        if inherited:
+            extra = draw(st.sampled_from(inherited))
+            if extra not in picked:
+                picked.append(extra)
         priv = {"s": "sibpriv-%s", "i": 4242, "f": 42.5, "b": "yes"}
         case["sib_vars"] = {n: (priv[n[0]] % n if n[0] == "s" else priv.get(n[0], "sibpriv-%s" % n)) for n in picked}
+        # ... and may itself refer to a name that the PROBE defines privately (the leak can go either way, depending on
+        # which of the two components is resolved first)
+        order = sorted(variables, key=lambda nm: int(nm[1:]))
+        for n in picked:
+            later = [m for m in order[order.index(n) + 1:] if m[0] == "s" and "c" in variables.get(m, {})]
+            if n[0] == "s" and later and draw(st.booleans()):
+                case["sib_vars"][n] = "sibpriv-%s-%s" % (n, _ref(draw(st.sampled_from(later))))
     return case
 
 
